@@ -6,11 +6,23 @@ import faulthandler
 import importlib
 import json
 import os
+import signal
 import sys
 import time
 import traceback
 
 faulthandler.enable()
+
+_WATCHDOG = {"fired": False}
+
+
+class CaseWatchdog(BaseException):
+    """raised by SIGALRM when one case exceeds its wall-clock allowance: the case is INCONCLUSIVE, whatever it returns"""
+
+
+def _on_alarm(signum, frame):
+    _WATCHDOG["fired"] = True
+    raise CaseWatchdog()
 
 
 def classify_exception(tb_list, repo):
@@ -53,10 +65,25 @@ def main():
             if use_reach:
                 reach.start(repo)
             t0 = time.time()
+            _WATCHDOG["fired"] = False
+            signal.signal(signal.SIGALRM, _on_alarm)
+            signal.alarm(int(getattr(mod, "CASE_TIMEOUT", 600)))
             try:
                 res = mod.run_case(case)
+                signal.alarm(0)
                 rec = {"index": index, "result": res, "wall": round(time.time() - t0, 3)}
+                if _WATCHDOG["fired"]:
+                    # the alarm went off inside the code under test (Solve swallows BaseException): never a verdict
+                    rec = {"index": index, "wall": round(time.time() - t0, 3),
+                           "result": {"violations": [], "obs": {"case_watchdog_fired": 1}, "skip": "case-watchdog",
+                                      "inconclusive": "case watchdog fired after %ds" % int(time.time() - t0)}}
+            except CaseWatchdog:
+                signal.alarm(0)
+                rec = {"index": index, "wall": round(time.time() - t0, 3),
+                       "result": {"violations": [], "obs": {"case_watchdog_fired": 1}, "skip": "case-watchdog",
+                                  "inconclusive": "case watchdog fired after %ds" % int(time.time() - t0)}}
             except BaseException as e:  # noqa  (an injected KeyboardInterrupt/SystemExit escaping the API must not kill the worker)
+                signal.alarm(0)
                 tb = traceback.extract_tb(e.__traceback__)
                 txt = "".join(traceback.format_exception(type(e), e, e.__traceback__))
                 if classify_exception(tb, repo) == "api":
